@@ -20,6 +20,8 @@ def run(check):
     check.run_rule('C11.R1', lambda c: rule_replace_and_slots(c, 'C11.R1'))
     check.run_rule('C11.R2', lambda c: rm.concile_table(c, c.repo, {'pair': 'C11.R2', 'annotation': 'C11.R2'}))
     check.run_rule('C11.R2b', lambda c: rule_annotation_pairing(c, 'C11.R2'))
+    from ..rules_classes import rule_annotation_pairing_sites
+    check.run_rule('C11.R2c', lambda c: rule_annotation_pairing_sites(c, 'C11.R2'))
     check.run_rule('C11.R3', lambda c: rule_evaluation_context(c, 'C11.R3'))
     check.run_rule('C11.R4', lambda c: rule_annotate(c, 'C11.R4'))
     from ..rules_classes import rule_no_rewrap_of_existing
